@@ -228,7 +228,7 @@ Section DispatchLemmas.
 
   Theorem help_command_unknown_topic st pl ups a0 rest :
     up st = pl :: ups ->
-    List.find (fun kc => str_eqb (ni_name (n_info (snd kc))) a0) (n_cmds (lv_node pl)) = None ->
+    alookup a0 (n_cmds (lv_node pl)) = None ->
     run_help specs st (a0 :: rest) = DErr (mkErrA ENoHelpTopic [a0] (msg_no_help_topic a0) false).
   Proof. unfold run_help. intros -> ->. reflexivity. Qed.
 
